@@ -59,7 +59,7 @@ MODULES = {
     "C05": (["C05", "C05r", "C05s", "C05t"], []),
     "C13": (["C13", "C13r"], [("C05", "C13_leading"), ("C05", "C13_leading_pass")]),
     "C02": (["C02", "E2E"], []),
-    "C03": (["C03", "C03u"], []),
+    "C03": (["C03", "C03u", "C03v"], []),
     "C09": (["C09", "C09m", "C09d"], []),
     "C04": (["C04", "C04w", "C04s"], []),
     "C07": (["C07", "C07e"], []),
